@@ -38,6 +38,9 @@ def make_tree(kind):
     root = os.path.join(w, 'root')
     os.makedirs(os.path.join(root, 'a', 'b', 'c'))
     os.makedirs(os.path.join(w, 'outside', 'sub'))
+    os.makedirs(os.path.join(w, 'root2'))                   # a sibling whose name begins with the root's name
+    with open(os.path.join(w, 'root2', 'secret'), 'wb') as f:
+        f.write(b'SECRET-PREFIX-SIBLING')
     for p, c in (('root/f', b'inside-f'), ('root/a/f', b'inside-af'), ('root/a/b/c/f', b'deep'),
                  ('outside/secret', b'SECRET'), ('outside/sub/s2', b'SECRET2'), ('secret', b'SECRET-SIBLING')):
         with open(os.path.join(w, p), 'wb') as f:
@@ -135,6 +138,10 @@ def path_alphabet(depth, outside_abs):
                     out.append(lead + body + trail)
     out += [outside_abs, outside_abs + '/secret', '/' + outside_abs, '/..' + outside_abs, '\\..\\outside',
             '/a/../../outside/secret', 'a/b/c/../../../../outside']
+    # the way back in through a sibling directory named like the root plus a suffix
+    for pre in ('..', '/..', '//..', 'a/..', 'a/../..', '/a/../..', 'a/b/../../..', '.', '', '/'):
+        for post in ('root2', 'root2/', 'root2/secret', 'root2/new', 'root/../root2/secret', 'root2/../root2/secret'):
+            out.append((pre + '/' + post) if pre not in ('', '/') else pre + post)
     return sorted(set(out))
 
 
@@ -175,7 +182,8 @@ def single_worker(job):
                 if leak:
                     viol.append(('leak', '%s (request %s %r)' % (leak, kind, path)))
                 if mutating:
-                    if fsmon.tree_digest(outside) != sentinel or open(sib, 'rb').read() != b'SECRET-SIBLING':
+                    if fsmon.tree_digest(outside) != sentinel or open(sib, 'rb').read() != b'SECRET-SIBLING' or \
+                            os.listdir(os.path.join(os.path.dirname(root), 'root2')) != ['secret']:
                         viol.append(('outside-modified', 'request %s %r changed files outside the root' % (kind, path)))
                 acc.add(core.digest((tree, kind, path, [p[:1] for p in replies])), transitions=1,
                         sample={'tree': tree, 'request': kind, 'path': path} if path == '//outside/secret' and kind == 'open-r' else None)
